@@ -404,6 +404,8 @@ def main():
                 if os.path.exists(markf):
                     os.unlink(markf)
                 e.update({"LD_PRELOAD": a.fi, "BITA_FI_PATH": out, "BITA_FI_K": str(fault["k"]), "BITA_FI_MODE": fault["mode"], "BITA_FI_TEAR": str(fault["tear"]), "BITA_FI_MARK": markf})
+                if fault.get("at") == "resize":
+                    e["BITA_FI_TRUNC"] = fault["mode"]      # the process dies at the resize: every write is done, the file still has its old length
                 cmd = args
             else:
                 cmd = ["strace", "-f", "-y", "-qq", "-s", "0", "-o", st, "-e", "trace=openat,open,lseek,read,write,pread64,pwrite64,ftruncate"] + args
@@ -496,6 +498,10 @@ def main():
                 return [c for c in cases if c["k"] == k and c["mode"] == mode and c["tear"] == tear][:1]
             lastc = pick_case(W, "eio", 0) + (pick_case(1, "eio", 0) + pick_case(1, "eio", 1) + pick_case((W + 1) // 2, "eio", 1) if W > 1 else [])
             lastc = [c for i, c in enumerate(lastc) if c not in lastc[:i]]
+            if kind == "regular" and prior and len(prior) > len(source):
+                # the crash point after the last write: the process dies at the resize of a regular file that is longer than the source
+                # (Clone.tla: Crash in phase "resize"); the re-run may find everything in place and must still cut the file
+                lastc = [{"k": 0, "mode": "kill", "tear": 0, "last": False, "at": "resize"}] + lastc
             rest = [c for c in cases if c not in lastc]
             rnd.shuffle(rest)
             for fc in lastc + rest[: max(2, a.max_faults - len(lastc))]:
